@@ -17,10 +17,14 @@ def rc_atom(name):
     return ('sym', 'rc.' + name, I32[0], I32[1])
 
 
+CLOCK_LO = {'s': 0, 'ms': 1}
+
+
 class PortModel(object):
-    def __init__(self, mtu_ok=True, alloc_may_fail=True, word=None):
+    def __init__(self, mtu_ok=True, alloc_may_fail=True, word=None, clock_name='clock'):
         from .facts import WORD
         word = word or WORD
+        self.clock_name = clock_name      # constructors read the clock under another name: their readings are not this step's
         self.mtu_ok = mtu_ok
         self.alloc_may_fail = alloc_may_fail
         self.word = word
@@ -58,13 +62,14 @@ class PortModel(object):
             m[nid] = len(m)
         return '%s:%s#%d' % (kind, I.fn, m[nid])
 
-    # ---- time
+    # ---- time (the seconds clock may read 0 - a monotonic clock counting from start-up; the millisecond clock is kept >= 1:
+    # 0 is the "never" sentinel of last_hello_tx_ms and of the RepeatBand deadlines, see DESIGN.md section 6)
     def _clock(self, I, st, unit, rty):
         n = st.tags.get('clk.' + unit, 0)
         st.tags['clk.' + unit] = n + 1
-        t = ('sym', 'clock.%s.%d' % (unit, n), 1, (1 << 63))
+        t = ('sym', '%s.%s.%d' % (self.clock_name, unit, n), CLOCK_LO[unit], (1 << 63))
         if n > 0:
-            prev = ('sym', 'clock.%s.%d' % (unit, n - 1), 1, (1 << 63))
+            prev = ('sym', '%s.%s.%d' % (self.clock_name, unit, n - 1), CLOCK_LO[unit], (1 << 63))
             st.add_fact(lin_of(prev).add(lin_of(t), -1))       # prev <= t
         floor = st.tags.get('clkfloor.' + unit)
         if floor is not None and n == 0:
